@@ -96,6 +96,11 @@ def constructed(rng):
                 for sg in (1, -1):
                     op = rng.choice(("round", "cround"))
                     out.append("%s %s %d" % (op, G.fD(sg * a, p), p - s))
+    # multiples of 10^n beyond 2^64 / 2^128 reduced modulo the word size
+    for c, n_ in G.wrapped_multiples():
+        p = rng.randrange(n_, 19)
+        for sgn in (1, -1):
+            out.append("%s %s %d" % (rng.choice(("round", "cround")), G.fD(sgn * c, p), p - n_))
     # decision boundary of division-free divisibility tests (x * inverse(5^n) mod 2^w against floor((2^w - 1) / 5^n))
     for c, n_ in G.modinv_boundary_all(rng):
         p = rng.randrange(n_, 19)
